@@ -55,6 +55,7 @@ fn main() {
         "shellcap" => tasklife::engine_shellcap(&rt, cases, &mut out),
         "secrets" => secrets::engine_secrets(&rt, cases, &mut out),
         "fidelity" => fidelity::engine_fidelity(&rt, cases, &mut out),
+        "join_hold" => fidelity::engine_join_hold(&rt, cases, &mut out),
         "roundtrip" => fidelity::engine_roundtrip(cases, &mut out),
         "auth" => auth::engine_auth(cases, &mut out),
         "wslock" => wslock::engine_wslock(&rt, cases, &mut out),
